@@ -45,8 +45,11 @@ CLAIMS['C04'] = {
              "too-small indexes and sizes are errors; vftable_item/slot_offset – the generated struct has one pointer-sized field per "
              "slot and, under the modelled repr(C) rules, slot k is at byte k*ps; wrapper_shape/vfunc_body – the emitted wrapper reads "
              "the slot named after the function and forwards receiver then arguments in order. Correspondence with pyxis and an "
-             "oracle on the emitted <T>Vftable struct and wrappers on every run. The run-time clause (exactly one call through that slot, receiver = object address, arguments in order, callee's value returned) "
-             "is not a theorem about an execution model; it is observed." + EXEC + "the stub hit must be the slot the DESCRIPTION assigns, exactly once."),
+             "oracle on the emitted <T>Vftable struct and wrappers on every run. Run-time clause: Props/Exec.lean gives the three emitted body shapes a small "
+             "operational semantics (execMethod / execVftable over a word memory, offsets from the modelled compiler layout, the slot found BY NAME in the emitted vftable struct) "
+             "and proves vfunc_wrapper_calls_declared_slot / vfunc_wrapper_with_receiver (exactly one call to mem[vt + k*ps] with k the slot the DESCRIPTION assigns, receiver then "
+             "arguments in order), own_accessor_reads_pointer, inherited_accessor_reads_base_pointer, and their lifts built_type_vfunc_wrappers / case_vfunc_wrappers / case_accessor "
+             "to every accepted type and to the final registry of every accepted bounded case. That semantics is itself validated against the real compiler and CPU:" + EXEC + "the stub hit must be the slot the DESCRIPTION assigns, exactly once."),
     'note': COMMON_NOTE + "rustc's repr(C) layout is modelled (RustSem), validated by the real compiler; the execution run is testing of the emitted code on the host CPU with ABI strings normalised to \"C\" and integer/pointer arguments only.",
     'technique': 'Lean 4 proof (loop invariant over the slot table) + differential correspondence + output oracle',
 }
@@ -55,7 +58,9 @@ CLAIMS['C05'] = {
              "resolved types and the declared return type; the four *_rejected theorems – no address, negative address, unresolvable "
              "parameter or return type are errors; wrapper_shape – the emitted wrapper transmutes that address to a function pointer "
              "over receiver pointer (iff declared) + parameters in order and calls it with them in order; all functions of all impl "
-             "blocks of a type are present (impl_functions_all_present, impl_blocks_merged); hex_roundtrip – the printed literal "
+             "blocks of a type are present (impl_functions_all_present, impl_blocks_merged); Exec.address_wrapper_calls_declared_address / _with_receiver / _static and "
+             "case_address_methods – under the operational semantics of Props/Exec.lean the wrapper performs exactly one call to the declared address with receiver (iff declared) "
+             "then the arguments in order, for every accepted bounded case; hex_roundtrip – the printed literal "
              "denotes the declared number. Correspondence and an oracle on every emitted wrapper on every run. Known finding: "
              "functions named `_…` are accepted but not emitted."),
     'note': COMMON_NOTE + "the run-time clause (exactly one call to A with receiver then arguments, value returned) is observed by O4 execution (trampoline at the declared address -> recording stub; host ABI \"C\", integer/pointer arguments), not proved; quote!/prettyplease are outside the model, the harness re-parses their output.",
@@ -146,7 +151,7 @@ CLAIMS['C07'] = {
              "conversions_emitted / dfs_unfold – one AsRef/AsMut pair along the field path for each base type occurring once in the DFS "
              "hierarchy, a marker and no conversion for a type occurring more than once. Correspondence plus an oracle that recomputes "
              "the expected member and conversion lists of every derived type from the input and the implementation's output for its bases."),
-    'note': COMMON_NOTE + "that a forwarding call lands on the sub-object at the base's offset is Rust's field-projection semantics plus C01; not a theorem here; it is observed by O4 execution on every run (the stub must see object address + the offset of the base sub-object as receiver; AsRef conversions must return object address + the offset of the field path).",
+    'note': COMMON_NOTE + "that a forwarding call lands on the sub-object at the base's offset is Rust's field-projection semantics plus C01; proved under the operational semantics of Props/Exec.lean (forwarder_calls_original_on_subobject, every_public_function_forwarded, forwarder_on_built_type: running the forwarder on D at `self` IS running the original on the base type at self + o, with o the offset C01 assigns to the base field; case_forwarders for every accepted bounded case) and observed by O4 execution on every run (the stub must see object address + the offset of the base sub-object as receiver; AsRef conversions must return object address + the offset of the field path).",
     'technique': 'Lean 4 proof (fold invariant of the injection loop; emitter unfolding) + differential correspondence + member-set oracle',
 }
 CLAIMS['C20'] = {
